@@ -652,8 +652,14 @@ fn gen_model(r: &mut Rng, rs: Rng, share: Share, vi: usize, risk: Risk, pattern:
                 }
             }
             t.filename.string.data = data;
-            // the form the parser produces: count includes the terminator, offset non-zero
-            t.filename.array = M2Array::new(len as u32 + 1, g.off());
+            // the form the parser produces: count includes the terminator, offset non-zero. A file whose name field is padded
+            // behind the terminator, or not terminated inside its count, parses to a count that is not len + 1.
+            let count = match g.r.below(6) {
+                0 => len as u32 + 2 + g.r.below(40) as u32,
+                1 if len > 0 => len as u32,
+                _ => len as u32 + 1,
+            };
+            t.filename.array = M2Array::new(count, g.off());
         }
         m.textures.push(t);
     }
@@ -1188,7 +1194,7 @@ fn project(m: &M2Model, cx: Ctx) -> Proj {
         "vertices",
         m.vertices.iter().map(|x| format!("p={} w={:?} i={:?} n={} t={} t2={:?}", v3(&x.position), x.bone_weights, x.bone_indices, v3(&x.normal), v2(&x.tex_coords), x.tex_coords2.map(|t| v2(&t)))).collect(),
     ));
-    p.push(("textures", m.textures.iter().map(|t| format!("type={} flags={:08x} fn_count={} fn={}", t.texture_type as u32, t.flags.bits(), t.filename.array.count, bytes_s(&t.filename.string.data))).collect()));
+    p.push(("textures", m.textures.iter().map(|t| format!("type={} flags={:08x} fn={}", t.texture_type as u32, t.flags.bits(), bytes_s(&t.filename.string.data))).collect()));
     p.push(("materials", m.materials.iter().map(|x| format!("flags={:04x} blend={:04x}", x.flags.bits(), x.blend_mode.bits())).collect()));
     let rd = &m.raw_data;
     p.push(("bone_lookup_table", u16_list(&rd.bone_lookup_table)));
@@ -1764,6 +1770,25 @@ fn walk_m2(c: &mut Case, bytes: &[u8], m: &M2Model, vlabel: &str, sigtag: &dyn F
                         let lab = format!("{}[{i}]+{rel}", p.name);
                         if !regions.iter().any(|r| r.0 == s && r.1 == e && r.2.contains('+')) {
                             regions.push((s, e, lab));
+                        }
+                    }
+                }
+                if p.name == "textures" && kind == 'n' {
+                    // the name as it stands in the file: the model's name bytes and one terminator, counted as such
+                    if let Some(t) = m.textures.get(i) {
+                        c.count("walker_texture_names", 1);
+                        let named = t.filename.array.count != 0 && t.filename.array.offset != 0;
+                        let mut want = Vec::new();
+                        if named {
+                            want.extend_from_slice(&t.filename.string.data);
+                            want.push(0);
+                        }
+                        if got != want {
+                            c.violate(
+                                sigtag(format!("walker|texture-name-bytes|{vlabel}")),
+                                format!("texture {i}: the file holds name (count {cnt}, offset {off}) = {}, the model has {}", bytes_s(&got), bytes_s(&want)),
+                                ctx.clone(),
+                            );
                         }
                     }
                 }
